@@ -45,7 +45,13 @@ type World struct {
 	implMemo  map[string][]implInfo
 	usedContracts map[*Unit]map[*Contract]bool
 	allFuncs  map[*ssa.Function]bool
+	extMemo   map[string]*Contract
+	contractErrs []contractErr
+	commonPkg *PkgInfo
+	fullNameMemo map[string]*ssa.Function
 }
+
+type contractErr struct{ file, msg, raw string }
 
 func (w *World) subKey(name string) int {
 	if k, ok := w.subKeys[name]; ok {
@@ -131,7 +137,9 @@ func (w *World) loadContracts(dirs []string) error {
 		}
 		cf, err := ParseContractFile(found)
 		if err != nil {
-			return err
+			raw, _ := os.ReadFile(found)
+			w.contractErrs = append(w.contractErrs, contractErr{found, err.Error(), string(raw)})
+			continue
 		}
 		pi.cf = cf
 		// extra imports declared for specifications
@@ -221,10 +229,54 @@ func (pi *PkgInfo) evalType(w *World, s string) types.Type {
 
 func (w *World) contractFor(f *ssa.Function) *Contract {
 	pi := w.pkgs[funcPkgPath(f)]
-	if pi == nil || pi.cf == nil {
-		return nil
+	if pi != nil && pi.cf != nil {
+		if c := pi.cf.Contracts[funcKey(f)]; c != nil {
+			return c
+		}
 	}
-	return pi.cf.Contracts[funcKey(f)]
+	// assumed contracts for library functions: keyed by the full ssa name in any contract file
+	if f.Blocks == nil || !strings.HasPrefix(funcPkgPath(f), repoModule) {
+		full := f.String()
+		if o := f.Origin(); o != nil && o != f {
+			full = o.String()
+		}
+		if c, ok := w.extContracts()[full]; ok {
+			return c
+		}
+	}
+	return nil
+}
+
+func (w *World) extContracts() map[string]*Contract {
+	if w.extMemo != nil {
+		return w.extMemo
+	}
+	w.extMemo = map[string]*Contract{}
+	var paths []string
+	for p := range w.pkgs {
+		paths = append(paths, p)
+	}
+	sort.Strings(paths)
+	for _, p := range paths {
+		pi := w.pkgs[p]
+		if pi.cf == nil {
+			continue
+		}
+		for k, c := range pi.cf.Contracts {
+			if strings.Contains(k, "/") || !strings.HasPrefix(funcPkgPathOfKey(k), repoModule) && strings.Contains(k, ".") && isLibKey(k) {
+				if _, dup := w.extMemo[k]; !dup {
+					w.extMemo[k] = c
+				}
+			}
+		}
+	}
+	// the shared library-model file wins
+	if w.common != nil {
+		for k, c := range w.common.Contracts {
+			w.extMemo[k] = c
+		}
+	}
+	return w.extMemo
 }
 
 func (w *World) pkgOfContract(c *Contract) *PkgInfo {
@@ -232,6 +284,9 @@ func (w *World) pkgOfContract(c *Contract) *PkgInfo {
 		if pi.cf != nil && pi.cf.Path == c.File {
 			return pi
 		}
+	}
+	if w.common != nil && w.common.Path == c.File {
+		return w.commonPkg
 	}
 	return nil
 }
@@ -387,6 +442,11 @@ func (w *World) readonlyRec(f *ssa.Function, visiting map[*ssa.Function]bool) bo
 	}
 	visiting[f] = true
 	ok := true
+	if f.Name() == "DeepCopy" {
+		w.roMemo[f] = 1
+		delete(visiting, f)
+		return true
+	}
 	if f.Blocks == nil {
 		ok = externalIsScalarPure(f) || externalReadonly[f.String()]
 	}
@@ -512,6 +572,23 @@ func (w *World) staticModFams(u *Unit, pk *PkgInfo, c *Contract, x SExpr) (map[s
 		for _, p := range fn.Params {
 			env.vars[p.Name()] = u.freshValue(p.Type(), "scan_"+p.Name())
 		}
+		if len(fn.Params) == 0 {
+			if rv := fn.Signature.Recv(); rv != nil {
+				v := u.freshValue(rv.Type(), "scan_recv")
+				env.vars["recv"] = v
+				if rv.Name() != "" && rv.Name() != "_" {
+					env.vars[rv.Name()] = v
+				}
+			}
+			ps := fn.Signature.Params()
+			for i := 0; i < ps.Len(); i++ {
+				v := u.freshValue(ps.At(i).Type(), fmt.Sprintf("scan_arg%d", i))
+				env.vars[fmt.Sprintf("arg%d", i)] = v
+				if n := ps.At(i).Name(); n != "" && n != "_" {
+					env.vars[n] = v
+				}
+			}
+		}
 		for _, it := range env.modItems(x) {
 			out[it.fam] = it.sort
 		}
@@ -520,6 +597,15 @@ func (w *World) staticModFams(u *Unit, pk *PkgInfo, c *Contract, x SExpr) (map[s
 }
 
 func (w *World) findFuncByContract(pk *PkgInfo, c *Contract) *ssa.Function {
+	if strings.Contains(c.Func, "/") || isLibKey(c.Func) {
+		if w.fullNameMemo == nil {
+			w.fullNameMemo = map[string]*ssa.Function{}
+			for fn := range ssautil.AllFunctions(w.prog) {
+				w.fullNameMemo[fn.String()] = fn
+			}
+		}
+		return w.fullNameMemo[c.Func]
+	}
 	if pk == nil {
 		return nil
 	}
@@ -715,3 +801,20 @@ func (w *World) analyzeConstGlobal(g *ssa.Global) *constGlobalVal {
 }
 
 var _ = ast.Print
+
+// sameRecursionGroup: direct recursion or mutual recursion declared by both contracts carrying 'decreases'.
+func (w *World) sameRecursionGroup(callee, fn *ssa.Function) bool {
+	return callee == fn || (w.contractFor(callee) != nil && w.contractFor(callee).Decreases != nil)
+}
+
+func funcPkgPathOfKey(k string) string { return "" }
+
+// isLibKey: keys such as  maps.Clone  or  (time.Time).Before  name standard-library functions.
+func isLibKey(k string) bool {
+	for _, p := range []string{"maps.", "slices.", "strings.", "sort.", "strconv.", "time.", "(time.", "(*time.", "math.", "fmt.", "errors."} {
+		if strings.HasPrefix(k, p) {
+			return true
+		}
+	}
+	return false
+}
